@@ -1,0 +1,51 @@
+//go:build verif
+
+package layout
+
+import (
+	"github.com/benoitkugler/webrender/css/counters"
+	pr "github.com/benoitkugler/webrender/css/properties"
+	bo "github.com/benoitkugler/webrender/html/boxes"
+	"github.com/benoitkugler/webrender/html/tree"
+	"github.com/benoitkugler/webrender/text"
+	"github.com/benoitkugler/webrender/text/hyphen"
+)
+
+// Read-only accessors used by the /verif correspondence harness (property C11).
+// Not compiled without the `verif` build tag.
+
+// VerifBoxTree returns the formatting structure (box tree after white space
+// processing and anonymous box generation, before any layout) that [Layout]
+// starts from, built exactly as [Layout] builds it.
+func VerifBoxTree(html *tree.HTML, stylesheets []tree.CSS, presentationalHints bool, fontConfig text.FontConfiguration) bo.BlockLevelBoxITF {
+	counterStyle := make(counters.CounterStyle)
+	context := newLayoutContext(html, stylesheets, presentationalHints, fontConfig, counterStyle)
+	return bo.BuildFormattingStructure(html.Root, context.styleFor, context.resolver,
+		html.BaseUrl, &context.TargetCollector, counterStyle, &context.footnotes)
+}
+
+// VerifTextContext is a minimal text.TextLayoutContext, for calling
+// text.SplitFirstLine directly.
+type VerifTextContext struct {
+	FontConfig text.FontConfiguration
+	hyphens    map[text.HyphenDictKey]hyphen.Hyphener
+	struts     map[text.StrutLayoutKey][2]pr.Float
+}
+
+func NewVerifTextContext(fc text.FontConfiguration) *VerifTextContext {
+	return &VerifTextContext{
+		FontConfig: fc,
+		hyphens:    map[text.HyphenDictKey]hyphen.Hyphener{},
+		struts:     map[text.StrutLayoutKey][2]pr.Float{},
+	}
+}
+
+func (c *VerifTextContext) Fonts() text.FontConfiguration { return c.FontConfig }
+
+func (c *VerifTextContext) HyphenCache() map[text.HyphenDictKey]hyphen.Hyphener {
+	return c.hyphens
+}
+
+func (c *VerifTextContext) StrutLayoutsCache() map[text.StrutLayoutKey][2]pr.Float {
+	return c.struts
+}
